@@ -180,6 +180,8 @@ def pvc_comp(kind, it, fn, nested=False):
             return SFamily([s, val.vars[0]], [n, val.ranges[0]], core.EMPTY, "comp2-empty")
         if isinstance(val, SFamily):
             return SFamily([s] + val.vars, [n] + val.ranges, val.value, "comp2")
+        if isinstance(val, list) and builtins.len(val) == 0:
+            return SFamily([s, sg.new_binder(c, "s")], [n, 0], core.EMPTY, "comp2-empty")
         raise OutOfReach("concrete inner generator under symbolic outer")
     return SFamily([s], [n], val, "comp")
 
